@@ -615,10 +615,17 @@ impl Fleet {
                 }
                 Err(err) => {
                     let should_retry = is_retryable_error(&err);
+                    // Only an application-level reply proves the cached connection is
+                    // still usable. Any other failure (a broken pipe on a connection
+                    // that died while idle, a malformed reply that stopped the reader)
+                    // leaves a dead client behind, so drop it whether or not we retry.
+                    let connection_suspect = !matches!(err, RepeError::ServerError { .. });
                     last_error = Some(err);
 
-                    if should_retry {
+                    if connection_suspect {
                         invalidate_client(&node);
+                    }
+                    if should_retry {
                         if attempt + 1 < self.options.retry_policy.max_attempts {
                             thread::sleep(self.options.retry_policy.delay);
                         }
@@ -663,10 +670,17 @@ impl Fleet {
                 }
                 Err(err) => {
                     let should_retry = is_retryable_error(&err);
+                    // Only an application-level reply proves the cached connection is
+                    // still usable. Any other failure (a broken pipe on a connection
+                    // that died while idle, a malformed reply that stopped the reader)
+                    // leaves a dead client behind, so drop it whether or not we retry.
+                    let connection_suspect = !matches!(err, RepeError::ServerError { .. });
                     last_error = Some(err);
 
-                    if should_retry {
+                    if connection_suspect {
                         invalidate_client(&node);
+                    }
+                    if should_retry {
                         if attempt + 1 < self.options.retry_policy.max_attempts {
                             thread::sleep(self.options.retry_policy.delay);
                         }
